@@ -286,3 +286,40 @@ Example C17_ex_json_big_labels :
      pcf_label secs 103 5 = Some sA /\ pcf_label secs 103 4294967301 = Some sB).
 Proof. exact ex_big_repaired. Qed.
 End J.
+
+(* ==== mark wiring from source (unit connect) ==== *)
+(* The connect-time code of src/emu/ovni/mark.c (create_thread_chan, init_cpu, connect_thread_prv, connect_thread,
+   connect_cpu_prv, connect_cpu, mark_connect) is regenerated into Gen/Connect_gen.v on every run (unit connect, prelude
+   Emu/ConnectPre.v: the mark types are the channel specs of pseudo-model 1000 = MarkDefs.mark_chans, in the order of the
+   hash table memu->types; the per-thread / per-CPU mark data hang on the ovni model's objects).
+   ConnectProofs.connect_all runs mark_create's loops (create_thread_chan of every thread, init_cpu of every CPU) after the
+   ovni model's model_thread_create / model_cpu_create and the generated mark_connect after its model_thread_connect /
+   model_cpu_connect, as model_ovni_create / model_ovni_connect do (scan_thread, which finds the mark types, is not
+   translated: the types come from the environment).
+   C17_mark_wiring_from_source_partial: for 2 threads, 3 CPUs, the model sets {ovni}, {ovni, nOS-V}, all models and four
+   lists of mark types (stack / single, one to three types), the bay the generated code builds from the empty bay,
+   renamed through the heap it built, IS BayDefs.wire: the mark channels (stack or single, ALLOW_DUP), the thread-side
+   tracks with thread_select_active on the thread's state channel, the CPU-side muxes on th_running with one input per
+   thread, the callback ORDER on the shared select channels, and the PRV callbacks (thread / cpu side, row, type 100 + t,
+   PRV_SKIPDUPNULL) = key_of / flags_of.  PARTIAL as C06_wiring_from_source_partial: by computation for this family and
+   through the certificate ConnectProofs.wiring_ok for any concrete description; no induction over sizes.
+   The marks are wired inside the ovni model's hooks, i.e. BEFORE the models with a larger id (OpenMP, TAMPI, nOS-V): the
+   channel specs must list them right after the ovni model's (ConnectProofs.slot_chans); with the marks last, as
+   DecodeDefs.mk_chans ++ MarkDefs.mark_chans has them, the callback order of BayDefs.wire differs from the emulator's when
+   such a model is enabled (C17_ex_mark_wiring_marks_last_differs; only the order of PRV lines in one propagation depends
+   on it). *)
+From OV Require Emu.ConnectPre Gen.Connect_gen Proofs.ConnectProofs.
+
+Theorem C17_mark_wiring_from_source_partial : forall en ms, In en ConnectProofs.mark_models -> In ms ConnectProofs.mark_lists ->
+  exists st, ConnectProofs.connect_all (ConnectProofs.mark_sx en ms) = Ok st /\
+             ConnectProofs.normalize (ConnectProofs.mark_sx en ms) st = Some (BayDefs.wire (ConnectProofs.mark_sx en ms)).
+Proof. exact ConnectProofs.mark_wiring_from_source. Qed.
+Print Assumptions C17_mark_wiring_from_source_partial.
+
+Example C17_ex_mark_wiring : ConnectProofs.wiring_ok (ConnectProofs.mark_sx (M_OVNI :: M_NOSV :: nil) (ConnectProofs.mk_mtype 1 true :: ConnectProofs.mk_mtype 7 false :: nil)) = true.
+Proof. vm_compute. reflexivity. Qed.
+Example C17_ex_mark_wiring_marks_last_differs :
+  ConnectProofs.wiring_ok {| s_threads := ConnectProofs.fam_threads; s_cpus := ConnectProofs.fam_cpus;
+                             s_chans := mk_chans (M_OVNI :: M_NOSV :: nil) ++ mark_chans (ConnectProofs.mk_mtype 1 true :: nil); s_lint := false |} = false.
+Proof. vm_compute. reflexivity. Qed.
+(* ==== end of block (unit connect) ==== *)
